@@ -22,12 +22,18 @@ func main() {
 	switch *prop {
 	case "C15":
 		genC15(*out, *tier, *seed)
+	case "C01":
+		genC01(*out, *tier, *seed)
 	case "C03":
 		genC03(*out, *tier, *seed)
 	case "C07":
 		genC07(*out, *tier, *seed)
 	case "C08":
 		genC08(*out, *tier, *seed)
+	case "C12":
+		genC12(*out, *tier, *seed)
+	case "C13":
+		genC13(*out, *tier, *seed)
 	case "C14":
 		genC14(*out, *tier, *seed)
 	default:
